@@ -22,6 +22,10 @@ CONSTANTS
   RevShifts = {24}
   SFSplits = {3000}
   Focus = FALSE
+  StopAfterReject = FALSE
+  HistPost = TRUE
+  WinStarts = {0, 1, 2}
+  WinLens = {1, 2}
 INVARIANTS Conservation SiafundsConst NoDoubleUse PoolCoversClaims LiveNotGone
 PROPERTIES RevertInverse RevisionStep
 VIEW View
